@@ -4,6 +4,7 @@ import (
 	"bytes"
 	"context"
 	"encoding/binary"
+	"strconv"
 	"time"
 
 	"github.com/TarsCloud/TarsGo/tars/protocol"
@@ -27,6 +28,9 @@ type Protocol struct {
 
 const (
 	reconnectMsg = "_reconnect_"
+	// keys under which a TUP response carries the return code and its description
+	statusResultCode = "STATUS_RESULT_CODE"
+	statusResultDesc = "STATUS_RESULT_DESC"
 )
 
 // NewTarsProtocol return a TarsProtocol with dispatcher and implement interface.
@@ -165,6 +169,16 @@ func (s *Protocol) req2Byte(rsp *requestf.ResponsePacket) []byte {
 	req.Context = rsp.Context
 	req.Status = rsp.Status
 	req.SBuffer = rsp.SBuffer
+	if rsp.IRet != 0 {
+		// RequestPacket has no return-code member: a TUP peer reads the result from the status map
+		status := make(map[string]string, len(rsp.Status)+2)
+		for k, v := range rsp.Status {
+			status[k] = v
+		}
+		status[statusResultCode] = strconv.Itoa(int(rsp.IRet))
+		status[statusResultDesc] = rsp.SResultDesc
+		req.Status = status
+	}
 
 	os := codec.NewBuffer()
 	req.WriteTo(os)
